@@ -348,6 +348,88 @@ static void nested_case(Rng& rng, uint64_t)
 	judge("nested-integral-value", (double) fabsl((ld) got - exact), tol, det);
 }
 
+// --- (4b) the inner integral runs over [c, u(x)] with u(a) = c: at the outer end point the inner call has equal limits and returns through its shortcut
+// while the outer integration is still running (seeded change C03-r7m1 kept the recursion depth in a file-static and left the inner one installed there)
+static void nested_triangle_case(Rng& rng, uint64_t)
+{
+	bool outer_shallow = rng.coin();
+	int d_out = outer_shallow ? rng.irange(0, 5) : rng.irange(9, 12), d_in = outer_shallow ? rng.irange(8, 14) : rng.irange(0, 3);
+	double a = rng.uni(-2, 0), b = a + rng.uni(0.5, 3), c = rng.uni(-1, 1), d = c + rng.uni(0.5, 2);
+	double ky = rng.uni(c, d);
+	bool at_b = rng.coin(0.3);	 // the empty inner range at the upper instead of the lower outer limit
+	double eps_out = rng.loguni(1e-16, 1e-12), eps_in = rng.loguni(1e-16, 1e-12);
+	set_params(J().d("a", a).d("b", b).d("c", c).d("d", d).i("outer_depth", d_out).i("inner_depth", d_in).d("outer_epsilon", eps_out).d("inner_epsilon", eps_in).d("kink_y", ky).i("empty_inner_range_at_b", at_b));
+	hash_param(a), hash_param(b), hash_param(c), hash_param(d), hash_param_u(d_out * 100 + d_in), hash_param(ky);
+	mark_nontrivial();
+	uint64_t outer_evals = 0, worst_inner = 0, empty_inner = 0;
+	double s = (d - c) / (b - a);
+	std::function<double(double)> outer = [&](double x) {
+		outer_evals++;
+		uint64_t n = 0;
+		std::function<double(double)> inner = [&](double y) {
+			n++;
+			return 1 + std::fabs(y - ky);
+		};
+		double u = at_b ? c + s * (b - x) : c + s * (x - a);
+		if(u == c)
+			empty_inner++;
+		StreamCapture cap2;
+		double v = Integrate(inner, c, u, eps_in, d_in);
+		worst_inner = std::max(worst_inner, n);
+		return v;
+	};
+	StreamCapture cap;
+	double got = Integrate(outer, a, b, eps_out, d_out);
+	ld C = c, D = d, K = ky;
+	ld exact = ((D - C) * (D - C) / 2 + (K - C) * (K - C) * (D - C) / 2 - (K - C) * (K - C) * (K - C) / 6 + (D - K) * (D - K) * (D - K) / 6) / (ld) s;
+	auto det = [&] { return J().d("got", got).d("exact", (double) exact).i("outer_evaluations", (long long) outer_evals).i("largest_inner_evaluation_count", (long long) worst_inner).i("inner_calls_with_equal_limits", (long long) empty_inner); };
+	require("nested-inner-call-with-equal-limits-was-made", empty_inner >= 1, det);
+	judge("nested-outer-evaluation-count-at-most-2^(depth+2)+1", (double) outer_evals, std::ldexp(1.0, d_out + 2) + 1, det);
+	judge("nested-inner-evaluation-count-at-most-2^(depth+2)+1", (double) worst_inner, std::ldexp(1.0, d_in + 2) + 1, det);
+	double h_out = (b - a) * std::ldexp(1.0, -d_out), h_in = (d - c) * std::ldexp(1.0, -d_in);
+	double tol = (double) fabsl(exact) * (4 * (h_out * h_out + h_in * h_in) + 1e-9);
+	judge("nested-integral-value", (double) fabsl((ld) got - exact), tol, det);
+}
+
+// --- (1b) quartics and quintics that take the same value at both limits and at the midpoint, k + (x-a)(x-m)(x-b)(alpha x + beta) in product form, so that
+// the three values are equal bit for bit (seeded change C03-r7m2 took that for a constant integrand and returned h f(m))
+static void level_poly_case(Rng& rng, uint64_t)
+{
+	double W = rng.loguni(1e-3, 1e2), lo = rng.coin(0.4) ? -0.5 * W : rng.uni(-3, 2) * W, hi = lo + W;
+	double m = 0.5 * (lo + hi);
+	double k = rng.coin(0.3) ? 0.0 : rng.mag(1e-3, 1e3), al = rng.coin(0.2) ? 0.0 : rng.mag(1e-3, 1e3), be = rng.mag(1e-3, 1e3);
+	if(al == 0 && rng.coin())
+		al = 1.0;
+	double a = lo, b = hi;
+	if(rng.coin())
+		std::swap(a, b);
+	int depth  = flavour_depth(rng.irange(0, 12));
+	double eps = rng.loguni(1e-16, 1e2) * rng.sign();
+	set_params(J().d("a", a).d("b", b).d("level", k).d("alpha", al).d("beta", be).d("epsilon", eps).i("depth", depth));
+	hash_param(a), hash_param(b), hash_param(k), hash_param(al), hash_param(be), hash_param_u(depth);
+	mark_nontrivial();
+	auto f = [=](double x) { return k + (x - lo) * (x - m) * (x - hi) * (al * x + be); };
+	Run r  = run(f, a, b, eps, depth);
+	// exact integral of the polynomial actually evaluated (the double m may differ from the true midpoint by half an ulp): 5-point Gauss-Legendre in long double
+	static const ld GX[3] = {0.0L, 0.538469310105683091036314420700208805L, 0.906179845938663992797626878299392965L}, GW[3] = {0.568888888888888888888888888888888889L, 0.478628670499366468041291514835638193L, 0.236926885056189087514264040719917363L};
+	ld mid = ((ld) lo + (ld) hi) / 2, hw = ((ld) hi - (ld) lo) / 2, sum = 0, mag = 0;
+	auto fl = [&](ld x) { return (x - (ld) lo) * (x - (ld) m) * (x - (ld) hi) * ((ld) al * x + (ld) be); };
+	for(int i = 0; i < 3; i++)
+		for(int sg = (i == 0 ? 1 : -1); sg <= 1; sg += 2)
+		{
+			ld v = fl(mid + sg * hw * GX[i]);
+			sum += GW[i] * v, mag += GW[i] * fabsl(v);
+		}
+	ld ref = ((ld) k * 2 + sum) * hw, scale = (fabsl((ld) k) * 2 + mag) * hw + fabsl((ld) lo) * 0;
+	if(a > b)
+		ref = -ref;
+	// the product form loses relative accuracy eps |x| / |x - root| in each factor; on [lo,hi] that is covered by the magnitude of the cubic part at its extrema
+	double xm = std::max(std::fabs(lo), std::fabs(hi));
+	double cubic = (double) (hw * hw * hw) * (std::fabs(al) * xm + std::fabs(be)) * 2 * (double) hw;
+	judge("polynomial-degree<=5-exact", (double) fabsl((ld) r.value - ref), 256 * EPS * ((double) scale + cubic * (1 + xm / (double) hw)), [&] { return J().d("got", r.value).d("ref", (double) ref).i("evaluations", (long long) r.tr.n).str("family", "level at a, midpoint and b"); });
+	universal_clauses(f, a, b, eps, depth, r);
+}
+
 // --- (5) requests that exhaust a deep recursion everywhere: quartics and quintics with epsilon = 1e-18, which rounding noise in |S2 - S| never meets, so
 // every panel is bisected down to the depth limit (2^(depth+2)+1 evaluations - the count bound is attained) and the result must still be exact.  The other
 // generators keep such requests shallow for cost; this one runs a few of them at depth 16-18 (thorough: up to 21), in the sanitizer flavour at 16-17,
@@ -385,6 +467,8 @@ static void setup()
 {
 	add_generator("deep_full_recursion", ctx().count(24, 240), deep_case, 900.0);
 	add_generator("nested_reentrant", ctx().count(4500, 60000), nested_case);
+	add_generator("nested_with_an_empty_inner_range", ctx().count(1500, 20000), nested_triangle_case);
+	add_generator("polynomials_level_at_the_three_first_nodes", ctx().count(20000, 300000), level_poly_case);
 	add_generator("polynomials", ctx().count(180000, 3000000), poly_case);
 	add_generator("regular_families", ctx().count(48000, 800000), regular_case);
 	add_generator("quartic_splines", ctx().count(9000, 150000), spline_case);
